@@ -447,7 +447,8 @@ def _merge_sparse_by_pair_files(
             'up_gene_idx',
             shape=(n_up_indices,),
             dtype=gene_idx_dtype,
-            chunks=(min(1000000, n_up_indices),))
+            chunks=((min(1000000, n_up_indices),)
+                    if n_up_indices > 0 else None))
         dst_grp.create_dataset(
             'down_pair_idx',
             shape=(n_pairs+1,),
@@ -456,7 +457,8 @@ def _merge_sparse_by_pair_files(
             'down_gene_idx',
             shape=(n_down_indices,),
             dtype=gene_idx_dtype,
-            chunks=(min(1000000, n_down_indices),))
+            chunks=((min(1000000, n_down_indices),)
+                    if n_down_indices > 0 else None))
 
         col0_values = list(tmp_path_dict.keys())
         col0_values.sort()
